@@ -419,8 +419,12 @@ func (m Mix) next(g *sim.G) *sim.Op {
 			ops := []*sim.Op{
 				sim.TxOp("admin:EnableAttester", &types.MsgEnableAttester{From: mgr, Attester: x.Spelling(a)}),
 				sim.TxOp("admin:EnableAttester", &types.MsgEnableAttester{From: mgr, Attester: x.Spelling(b)}),
-				sim.TxOp("admin:DisableAttester", &types.MsgDisableAttester{From: mgr, Attester: x.Spelling(a)}),
 			}
+			if c := (b + 1 + g.Int("ap/tc", 0, 3)) % 6; c != a && c != b {
+				// a third spelling, under which nothing is stored: names no entry
+				ops = append(ops, sim.TxOp("admin:DisableAttester", &types.MsgDisableAttester{From: mgr, Attester: x.Spelling(c)}))
+			}
+			ops = append(ops, sim.TxOp("admin:DisableAttester", &types.MsgDisableAttester{From: mgr, Attester: x.Spelling(a)}))
 			_ = ks
 			// a receive signed by x and as many others as the threshold needs
 			ops = append(ops, followUps(g, "ap/twinuse", &types.MsgEnableAttester{From: mgr, Attester: x.Spelling(b)})...)
